@@ -543,7 +543,19 @@ def _propagate_bools(fdef):
                 inside = {id(x) for r_ in rest for x in ast.walk(r_)}
                 if len(stores.get(b, [])) == 1 and uses and all(id(u) in inside for u in uses):
                     operands = {x.id for x in ast.walk(st.value) if isinstance(x, ast.Name)}
-                    impure = any(isinstance(x, (ast.Attribute, ast.Subscript, ast.Call, ast.NamedExpr, ast.Await, ast.Yield)) for x in ast.walk(st.value))
+                    # constant-style attribute paths (obj.MODE.SIGNER, self.ERROR_CODE_OK) read the same value wherever they are evaluated
+                    constlike = set()
+                    for x in ast.walk(st.value):
+                        if isinstance(x, ast.Attribute) and re.fullmatch(r"_?[A-Z][A-Z0-9_]*", x.attr):
+                            y = x
+                            while isinstance(y, ast.Attribute):
+                                constlike.add(id(y))
+                                y = y.value
+                            if not isinstance(y, ast.Name):
+                                constlike.clear()
+                                break
+                    impure = any(isinstance(x, (ast.Subscript, ast.Call, ast.NamedExpr, ast.Await, ast.Yield)) or (isinstance(x, ast.Attribute) and id(x) not in constlike)
+                                 for x in ast.walk(st.value))
                     later_stores = {x.id for r_ in rest for x in ast.walk(r_) if isinstance(x, ast.Name) and isinstance(x.ctx, (ast.Store, ast.Del))}
                     in_loop_risk = any(isinstance(x, (ast.For, ast.While)) for r_ in rest for x in ast.walk(r_)) and (operands & later_stores)
                     ok = not (operands & later_stores) and not in_loop_risk
